@@ -45,6 +45,21 @@ pub fn g_json(kind: &str, a: i64, b: i64, c: i64, f: f64) -> Value {
     json!({"kind": kind, "a": a, "b": b, "c": c, "f": f64j(f), "f_approx": if f.is_finite() { json!(f) } else { json!(format!("{}", f)) }})
 }
 
+/// days around every month end of year `y` (last two days of the month, first two of the next), clamped to the range
+pub fn month_end_days(y: i64) -> Vec<i64> {
+    let mut v = vec![];
+    for m in 1..=12i64 {
+        let first = crate::cal::days_from_civil(y, m, 1);
+        let last = first + crate::cal::dim(y, m as u32) as i64 - 1;
+        for d in [last - 2, last - 1, last, last + 1, last + 2] {
+            if (MIN_DAY as i64..=MAX_DAY as i64).contains(&d) {
+                v.push(d);
+            }
+        }
+    }
+    v
+}
+
 pub fn date_pool() -> Vec<i32> {
     let mut v: Vec<i64> = vec![];
     for k in 0..=3 {
